@@ -40,7 +40,9 @@ BOUND = ("families Trapezoidal, Simpson, ClenshawCurtis, Leja (boundary on and o
          "Weight-sum and exactness are demanded for 'complete' cases: boundary on, or the box touches the global boundary in no dimension. "
          "Monomials: every axis monomial x_i^k, k<=deg_i, the corner prod x_i^deg_i and 8 fixed mixed ones; deg per dimension with n "
          "announced points (boundary on) and level l: trapezoidal 1, Simpson 3 (1 if n=2), ClenshawCurtis/Leja n-1, GaussLegendre 2n-1, "
-         "BSpline min(p,n-1), Lagrange min(p,l+1) (= min(p,n-1) except p=4,l=2, see notes)")
+         "BSpline min(p,n-1), Lagrange min(p,l+1) (= min(p,n-1) except p=4,l=2, see notes). History (round 2), every complete case: the grid is asked twice; the "
+         "Function cache is compared with own evaluation after integrate; the same Function object is integrated by a nodal grid first and by "
+         "point-wise evaluating grids (hierarchical family under test / LagrangeGrid p=1 / TrapezoidalGrid(integrator='old')) afterwards")
 RULE = BOUND + ("; one case = (family, p, boundary, a, b, start, end, levelvec); non-trivial = the grid has at least one point; "
                 "tolerance: |result-exact| <= 1e-10 * prod_i int_box |x_i|^k_i dx_i")
 BUDGET = {"quick": 60.0, "thorough": 800.0}
@@ -52,6 +54,9 @@ CLAUSES = {
     "B.weights.sum": "complete cases, nodal families: sum of the tensor weights == volume of the box (rel 1e-10)",
     "B.exact.weights": "complete cases, nodal families: sum_i w_i m(x_i) == closed-form integral of m over the box for every monomial m up to the nominal degree (rel 1e-10), points and weights taken from get_points_and_weights",
     "B.exact.integrate": "complete cases, all families: grid.integrate(m, levelvec, start, end) == closed-form integral for the same monomials (for the hierarchical families this includes the constant, i.e. integrate(1) == volume)",
+    "B.history.idempotent": "the same grid asked twice (second setCurrentArea + get_points_and_weights, second integrate with the same Function) gives the same points, weights and integral; the points/weights handed out before are unchanged by the later integrate calls",
+    "B.history.function_cache": "after grid.integrate(f, ...) every value stored in the cache of the Function object (f.f_dict) still equals f.eval at that point (own evaluation of the monomials)",
+    "B.history.shared_function": "exactness does not depend on what the Function object was used for before: the SAME Function object is integrated first by a nodal grid (the family under test, or a TrapezoidalGrid for the hierarchical families) and then, on the same box and level vector, by point-wise evaluating grids (the hierarchical family under test; LagrangeGrid p=1 and TrapezoidalGrid(integrator='old') after a nodal family): the second result equals the closed form for all monomials up to the second grid's nominal degree",
     "B.trap.boundary_off": "trapezoidal, boundary off: per dimension the coordinates/weights equal those of the boundary-on grid with exactly the entries at x==a (if start==a) and x==b (if end==b) removed; the tensor points/weights equal the boundary-on ones with exactly the points having a coordinate on the global boundary removed",
 }
 
@@ -261,11 +266,26 @@ def run_case(ctx, case):
         ctx.check("B.exact.weights", not bad, SITE_W[family], tag + ("-exactness" if bnd_eff or boundary is None else "-interior-exactness"),
                   "monomial exponents, quadrature, exact: %s (degrees %s)" % (bad[:3], degs))
     res = {}
+    pts_copy, w_copy = list(pts), np.array(w)
     with ctx.guard("B.total", SITE_N[family] if boundary is False else SITE_INT[hier], tag + ("-raises" if boundary is False else "-integrate-raises")):
         with quiet():
             F = make_function(exps)
             grid2 = make_grid(family, p, boundary, list(a), list(b))
+            if hier:
+                # history: the same Function object was integrated by a nodal grid on the same box before
+                from sparseSpACE import Grid as G
+                G.TrapezoidalGrid(list(a), list(b), boundary=True).integrate(F, list(levelvec), list(start), list(end))
             res["I"] = np.asarray(grid2.integrate(F, list(levelvec), list(start), list(end)), dtype=float).ravel()
+    history_checks(ctx, case, res, F if "I" in res else None, grid, grid2 if "I" in res else None, pts_copy, w_copy, exps, exact, scale, tag, hier)
+    if hier and "I" in res:
+        I = res["I"]
+        bad = [] if I.shape != exact.shape else [(exps[i], float(I[i]), float(exact[i])) for i in range(len(exps)) if not abs(I[i] - exact[i]) <= TOL * scale[i]]
+        ctx.check("B.history.shared_function", I.shape == exact.shape and not bad, SITE_INT[True], tag + "-after-nodal-same-function",
+                  "integrate() with a Function object used by a TrapezoidalGrid before: %s" % bad[:3])
+        with ctx.guard("B.total", SITE_INT[hier], tag + "-integrate-raises"):
+            with quiet():
+                res["I"] = np.asarray(make_grid(family, p, boundary, list(a), list(b)).integrate(
+                    make_function(exps), list(levelvec), list(start), list(end)), dtype=float).ravel()       # fresh Function for B.exact.integrate
     if "I" in res:
         I = res["I"]
         ok_shape = I.shape == exact.shape
@@ -274,6 +294,62 @@ def run_case(ctx, case):
                   tag + ("-integrate" if bnd_eff or boundary is None else "-interior-integrate"),
                   "shape %s vs %s; monomial exponents, integrate(), exact: %s (degrees %s)" % (I.shape, exact.shape, bad[:3], degs))
     return len(pts) > 0
+
+
+def history_checks(ctx, case, res, F, grid, grid2, pts_copy, w_copy, exps, exact, scale, tag, hier):
+    """generic history clauses of a complete case (F was integrated by grid2; grid handed out pts_copy / w_copy before)"""
+    from sparseSpACE import Grid as G
+    family, p, boundary = case["family"], case["p"], case["boundary"]
+    a, b, start, end, levelvec = case["a"], case["b"], case["start"], case["end"], case["levelvec"]
+    d = len(a)
+    if F is None:
+        return
+    E = np.array(exps, dtype=int)
+    # ---- function cache == function
+    keys = list(F.f_dict.keys())
+    if keys:
+        K = np.array(keys, dtype=float).reshape(len(keys), d)
+        cached = np.array([np.asarray(F.f_dict[k], dtype=float).ravel() for k in keys])
+        own = np.prod(K[:, None, :] ** E[None, :, :], axis=2)
+        okc = cached.shape == own.shape and bool(np.all(np.abs(cached - own) <= 1e-12 * np.maximum(1.0, np.abs(own))))
+        worst = None if cached.shape != own.shape else keys[int(np.argmax(np.max(np.abs(cached - own), axis=1)))]
+        ctx.check("B.history.function_cache", okc, SITE_INT[hier], tag + "-cache-differs-from-eval",
+                  "%d cached points; e.g. point %s" % (len(keys), worst))
+    # ---- same grid asked twice; earlier hand-outs unchanged
+    st = {}
+    with ctx.guard("B.total", SITE_INT[hier], tag + "-second-query-raises"):
+        with quiet():
+            grid.setCurrentArea(list(start), list(end), list(levelvec))
+            pts_b, w_b = grid.get_points_and_weights()
+            st["I2"] = np.asarray(grid2.integrate(F, list(levelvec), list(start), list(end)), dtype=float).ravel()
+            st["pts"], st["w"] = [tuple(float(x) for x in q) for q in pts_b], np.asarray(w_b, dtype=float).ravel()
+    if "I2" in st:
+        problems = []
+        if st["pts"] != pts_copy or not np.array_equal(st["w"], w_copy):
+            problems.append("second get_points_and_weights differs")
+        if st["I2"].shape != res["I"].shape or np.any(np.abs(st["I2"] - res["I"]) > 1e-13 * np.maximum(scale, np.abs(res["I"]))):
+            problems.append("second integrate with the same Function differs: %s vs %s" % (st["I2"][:3], res["I"][:3]))
+        ctx.check("B.history.idempotent", not problems, SITE_INT[hier], tag + "-same-grid-twice", "; ".join(problems))
+    # ---- the same Function object handed to point-wise evaluating grids afterwards (nodal families)
+    if not hier:
+        low = [i for i, e in enumerate(exps) if max(e) <= 1]
+        consumers = (("lagrange-p1", lambda: G.LagrangeGrid(list(a), list(b), boundary=True, p=1)),
+                     ("trapezoidal-old-integrator", lambda: G.TrapezoidalGrid(list(a), list(b), boundary=True, integrator='old')))
+        n_equi = int(np.prod([2 ** int(l) + 1 for l in levelvec]))
+        if n_equi > 289:
+            consumers = ()                       # python loops per point: only small and medium grids
+        elif n_equi > 45:
+            consumers = consumers[1:] if sum(levelvec) % 2 else consumers[:1]
+        for name, mk in consumers:
+            out = {}
+            with ctx.guard("B.total", SITE_INT[name == "lagrange-p1"], tag + "-then-" + name + "-raises"):
+                with quiet():
+                    out["I"] = np.asarray(mk().integrate(F, list(levelvec), list(start), list(end)), dtype=float).ravel()
+            if "I" in out:
+                J = out["I"]
+                bad = [] if J.shape != exact.shape else [(exps[i], float(J[i]), float(exact[i])) for i in low if not abs(J[i] - exact[i]) <= TOL * scale[i]]
+                ctx.check("B.history.shared_function", J.shape == exact.shape and not bad, SITE_INT[name == "lagrange-p1"],
+                          tag + "-then-" + name + "-same-function", "monomials of degree <= 1 per dimension after the Function was used by %s: %s" % (family, bad[:3]))
 
 
 def check_trap_boundary_off(ctx, case, grid_off, pts_off, w_off, touch_lo, touch_hi):
